@@ -73,6 +73,9 @@ def _decide(agent, markets):
             out.append(Cancel(order=o))
             continue
         side = (per_agent or {}).get("side", menu.get("side"))
+        sbt = (per_agent or {}).get("side_by_time")
+        if sbt:
+            side = sbt.get(str(t), side)
         if side is None:
             is_buy = g.boolean(f"{tag}_buy")
         else:
